@@ -383,3 +383,26 @@ def case_frame_cycle(rng):
     real = graphs.capture(build)
     line = sx(["cycle_frame", H, W, prim, path])
     return real, line, {"fn": "single_cycle/path(frame)", "H": H, "W": W, "prim": prim, "path": path}
+
+
+def case_crossable(rng):
+    from cspuz import graph as G
+    from cspuz.grid_frame import BoolGridFrame
+    H, W = rng.randint(0, 3), rng.randint(0, 3)
+    prim = _prim(rng)
+    sc = rng.random() < 0.5
+
+    def build(s):
+        fr = BoolGridFrame(s, H, W)
+
+        def call():
+            if sc and rng.random() < 0.5:
+                p, c = G.active_edges_single_cycle_crossable(s, fr, use_graph_primitive=prim)
+            else:
+                p, c = G.active_edges_connected_crossable(s, fr, single_cycle=sc, use_graph_primitive=prim)
+            assert p.shape == (H + 1, W + 1) and c.shape == (H + 1, W + 1)
+            return [pexpr(x) for x in p.data] + [pexpr(x) for x in c.data]
+        return call
+    real = graphs.capture(build)
+    line = sx(["crossable", H, W, sc, prim])
+    return real, line, {"fn": "connected_crossable", "H": H, "W": W, "single_cycle": sc, "prim": prim}
